@@ -120,7 +120,7 @@ def check_prediction(lg, g, spec):
 
 def body_mirror(cube, **kw):
     from maltoolbox.language import LanguageGraph
-    which = idx(kw['lang'], 3)
+    which = idx(kw['lang'], 4)
     cs = (idx(kw['c0'], 3), idx(kw['c1'], 4), idx(kw['c2'], 4), 0)
     with notrace(), reclimit():
         if which == 0:
@@ -130,8 +130,10 @@ def body_mirror(cube, **kw):
             spec = langs.L_INH(cs)
         elif which == 1:
             spec = langs.L_UNI()
-        else:
+        elif which == 2:
             spec = langs.L_SET()
+        else:
+            spec = langs.L_SYM()
         lg = LanguageGraph(copy.deepcopy(spec))
         r = check_lang_graph(lg, spec)
         if r:
@@ -197,10 +199,10 @@ def body_predict(cube, **kw):
 
 def queries(tier):
     qs = []
-    ps = [I('lang', 0, 2), I('c0', 0, 2), I('c1', 0, 3), I('c2', 0, 3)]
+    ps = [I('lang', 0, 3), I('c0', 0, 2), I('c1', 0, 3), I('c2', 0, 3)]
     qs.append(Query(name='mirror', body=body_mirror, params=ps, pre=['lang == 0 or (c0 == 0 and c1 == 0 and c2 == 0)'], split=['c0'], timeout=500,
-                    witnesses=[({}, {'lang': 0, 'c0': 2, 'c1': 3, 'c2': 0}), ({}, {'lang': 1, 'c0': 0, 'c1': 0, 'c2': 0}), ({}, {'lang': 2, 'c0': 0, 'c1': 0, 'c2': 0})],
-                    bound='languages: L_INH family (step s declared in 3 x 4 x 4 ways over P/A/G1), L_UNI (set operators over sibling types), L_SET; '
+                    witnesses=[({}, {'lang': 0, 'c0': 2, 'c1': 3, 'c2': 0}), ({}, {'lang': 1, 'c0': 0, 'c1': 0, 'c2': 0}), ({}, {'lang': 2, 'c0': 0, 'c1': 0, 'c2': 0}), ({}, {'lang': 3, 'c0': 0, 'c1': 0, 'c2': 0})],
+                    bound='languages: L_INH family (step s declared in 3 x 4 x 4 ways over P/A/G1), L_UNI (set operators over sibling types), L_SET, L_SYM (same field name on both ends of an association); '
                           'assets, super/sub links, subtype closure, per-asset associations, association lookup in both orientations for every pair of subtypes, '
                           'mirrored step links; checked again after regenerate_graph()'))
     qs.append(Query(name='ill', body=body_ill, params=[I('k', 0, len(langs.ILL) - 1)], timeout=300,
